@@ -81,6 +81,8 @@ class Guard:
             if op == "||":
                 return bool(self.ev(kids(n)[0], M)) or bool(self.ev(kids(n)[1], M))
             a, b = self.ev(kids(n)[0], M), self.ev(kids(n)[1], M)
+            if (isinstance(a, tuple) and a and a[0] == "OTHERKEY") or (isinstance(b, tuple) and b and b[0] == "OTHERKEY"):
+                return ("OTHERCMP",)        # a comparison on another key than the source index: never the required predicate
             if isinstance(a, tuple) or isinstance(b, tuple):
                 self.bad(n, "comparison of non-integers")
             if op in ("<", "<=", ">", ">=", "==", "!="):
@@ -220,5 +222,6 @@ def lambda_table(facts, fn, lam, x_values, y_values, idx_did, grp_did):
     for x in x_values:
         for y in y_values:
             g.bind = {ps[0]["did"]: x, ps[1]["did"]: y}
-            out[(x, y)] = bool(g.ev(kids(rets[0])[0], ((), ())))
+            v = g.ev(kids(rets[0])[0], ((), ()))
+            out[(x, y)] = None if isinstance(v, tuple) else bool(v)
     return out
